@@ -191,9 +191,78 @@ package swap
 //@ ghost swapAbs() int
 
 //@ # ASSUMED: read-only views (lazy caches are representation detail)
+//@ # pool views handed out for a pair of coins: the abstract content poolView(a, b) of that pool in that direction and the
+//@ # pool's id, which does not depend on the direction
+//@ ghost poolView(a types.CoinID, b types.CoinID) int
+//@ ghost poolIDOf(sw EditableChecker) int
+//@ spec pairID(a types.CoinID, b types.CoinID) int
+//@ axiom pairIDsym: forall a types.CoinID, b types.CoinID :: pairID(a, b) == pairID(b, a)
 //@ func iface RSwap.GetSwapper
+//@   ensures result != nil && viewOf(result) == poolView(arg0, arg1) && poolIDOf(result) == pairID(arg0, arg1)
 //@   modifies nothing
 //@ func iface RSwap.SwapPoolExist
 //@   modifies nothing
 //@ func iface RSwap.SwapPool
 //@   modifies nothing
+
+//@ # ---------------------------------------------------------------- abstract quotes of a pool view (C15)
+//@ # what the pool's calculators answer in this state for an amount: ASSUMED pure functions of (view, amount)
+//@ ghost buyQuoteOK(sw EditableChecker, a int) bool
+//@ ghost buyQuote(sw EditableChecker, a int) int
+//@ ghost sellQuoteOK(sw EditableChecker, a int) bool
+//@ ghost sellQuote(sw EditableChecker, a int) int
+//@ func iface EditableChecker.CalculateBuyForSellWithOrders
+//@   ensures (result0 != nil) == buyQuoteOK(recv, amount0In.val)
+//@   ensures result0 != nil ==> fresh(result0) && result0.val == buyQuote(recv, amount0In.val) && result0.val >= 0
+//@   modifies nothing
+//@ func iface EditableChecker.CalculateSellForBuyWithOrders
+//@   ensures (result0 != nil) == sellQuoteOK(recv, amount1Out.val)
+//@   ensures result0 != nil ==> fresh(result0) && result0.val == sellQuote(recv, amount1Out.val)
+//@   modifies nothing
+//@ func iface EditableChecker.Reserves
+//@   ensures result0 != nil && result1 != nil
+//@   modifies nothing
+//@ func iface EditableChecker.GetID
+//@   ensures result == poolIDOf(recv)
+//@   modifies nothing
+//@ func iface EditableChecker.AddLastSwapStepWithOrders
+//@   requires arg0 != nil && arg1 != nil
+//@   requires (arg0.val >= 0 && arg1.val >= 0) || (arg0.val <= 0 && arg1.val <= 0)
+//@   ensures result != nil && poolIDOf(result) == poolIDOf(recv)
+//@   ensures forward: arg0.val >= 0 && arg1.val >= 0 ==> viewOf(result) == after(viewOf(recv), arg0.val, arg1.val, arg2)
+//@   ensures mirrored: arg0.val < 0 || arg1.val < 0 ==> viewOf(result) == mirror(after(mirror(viewOf(recv)), -arg1.val, -arg0.val, !arg2))
+//@   modifies nothing
+
+//@ # ---------------------------------------------------------------- simulated pool views (C15)
+//@ # viewOf names the abstract content (reserves and order book) of a pool view; after() is the content once a swap of the
+//@ # given non-negative amounts has been applied, mirror() the same pool seen from the other side. Both are uninterpreted.
+//@ ghost viewOf(sw EditableChecker) int
+//@ spec after(v int, in0 int, out1 int, buy bool) int
+//@ spec mirror(v int) int
+//@ func iface EditableChecker.Reverse
+//@   ensures result != nil && viewOf(result) == mirror(viewOf(recv))
+//@   modifies nothing
+//@ func (*PairV2).reverse
+//@   trusted
+//@   ensures result != nil && fresh(result) && viewOf(result) == mirror(viewOf(p))
+//@   modifies nothing
+//@ # C15: amounts given as negative numbers mean "the same swap seen from the other side": the step is applied to the
+//@ # mirrored pool with the two amounts EXCHANGED and negated, and the result is mirrored back.
+//@ # First contract: the summary used at call sites (ASSUMED: the application of a non-negative step is after(), and the
+//@ # lazy order caches the calculators fill are representation detail). Second contract ("#mirrorstep"): PROVED against
+//@ # the body - the treatment of negative amounts.
+//@ func (*PairV2).AddLastSwapStepWithOrders
+//@   trusted
+//@   requires p != nil && amount0In != nil && amount1Out != nil
+//@   requires (amount0In.val >= 0 && amount1Out.val >= 0) || (amount0In.val <= 0 && amount1Out.val <= 0)
+//@   ensures result != nil
+//@   ensures forward: amount0In.val >= 0 && amount1Out.val >= 0 ==> viewOf(result) == after(viewOf(p), amount0In.val, amount1Out.val, buy)
+//@   ensures mirrored: amount0In.val < 0 || amount1Out.val < 0 ==> viewOf(result) == mirror(after(mirror(viewOf(p)), -amount1Out.val, -amount0In.val, !buy))
+//@   modifies nothing
+//@ func (*PairV2).AddLastSwapStepWithOrders #mirrorstep
+//@   serves C15
+//@   requires p != nil && amount0In != nil && amount1Out != nil
+//@   requires (amount0In.val >= 0 && amount1Out.val >= 0) || (amount0In.val <= 0 && amount1Out.val <= 0)
+//@   splitreturns
+//@   assumespre (*PairV2).update: the tail that applies a non-negative step is outside this contract
+//@   ensures [C15] mirrored: old(amount0In.val < 0 || amount1Out.val < 0) ==> viewOf(result) == mirror(after(mirror(old(viewOf(p))), -old(amount1Out.val), -old(amount0In.val), !buy))
